@@ -427,6 +427,21 @@ func (c *Ctx) evalCond(w *jsonWriterFn, e ast.Expr, s *jstate) (val int, refineO
 			return -1, obj, aPos, aZero
 		}
 		return -1, nil, 0, 0
+	case *ast.CallExpr:
+		// a predicate of the module whose body is one `return <condition>` (e.g. a writer object's `startsSeries(fp)`): its
+		// condition, read in its own context — tracked fields are the same objects there
+		if fn, ok := calleeObj(info, x).(*types.Func); ok && fn.Pkg() != nil && strings.HasPrefix(fn.Pkg().Path(), modPath) {
+			if hp := c.ByPath[fn.Pkg().Path()]; hp != nil {
+				if hd := c.declOf(hp, fn); hd != nil && hd.Body != nil && len(hd.Body.List) == 1 {
+					if r, ok := hd.Body.List[0].(*ast.ReturnStmt); ok && len(r.Results) == 1 {
+						w2 := *w
+						w2.fi = &FuncInfo{Pkg: hp, Decl: hd}
+						return c.evalCond(&w2, r.Results[0], s)
+					}
+				}
+			}
+		}
+		return -1, nil, 0, 0
 	case *ast.UnaryExpr:
 		if x.Op == token.NOT {
 			v, obj, rt, rf := c.evalCond(w, x.X, s)
